@@ -284,18 +284,18 @@ def plan(S, prop, mode, tier, avoid):
              "self": False, "radius": rad, "perpoint": False, "rseed": 1, "maxmatch": -1, "sink": "mem",
              "path": "c%d_p0.txt" % c, "also": ["depth2"], "scalar_q": False, "c": c, "hugecover": True}])
     bq = S.py("bigquery")
-    if prop == "C12" and chance(bq, 0.004):
+    if prop == "C12" and chance(bq, 0.003):
         # a catalogue-sized FIRST set (more than 100 000 query points) against a small matcher: implementations that
         # work through long queries in blocks meet their block boundaries here
         cra, cdec = round(bq.uniform(0, 360), 4), round(math.degrees(math.asin(bq.uniform(-0.95, 0.95))), 4)
         crad = pick(bq, [0.5, 2.0, 10.0])
-        small = {"kind": "cap", "n": bq.randrange(20, 80), "seed": bq.randrange(1 << 30), "dups": False,
+        small = {"kind": "cap", "n": bq.randrange(8, 30), "seed": bq.randrange(1 << 30), "dups": False,
                  "cra": cra, "cdec": cdec, "crad": crad}
         c = ncallers
         ncallers += 1
         rad_b = float("%.3g" % (crad * bq.uniform(0.02, 0.1)))
         callers.append([
-            {"k": "build", "m": "m%d" % c, "set": small, "depth": bq.randrange(3, max_depth_for(rad_b) + 1), "depth2": 4, "c": c},
+            {"k": "build", "m": "m%d" % c, "set": small, "depth": bq.randrange(3, max(4, max_depth_for(rad_b) - 4)), "depth2": 4, "c": c},   # (cost: ~100 leaves per circle at most)
             {"k": "match", "m": "m%d" % c, "q": {"kind": "cap", "n": bq.randrange(100001, 140000), "seed": bq.randrange(1 << 30),
                                                 "dups": False, "cra": cra, "cdec": cdec, "crad": crad},
              "self": False, "radius": rad_b, "perpoint": chance(bq, 0.3), "rseed": bq.randrange(1 << 30),
